@@ -4,6 +4,7 @@ import (
 	"fmt"
 	"go/token"
 	"go/types"
+	"sort"
 	"strings"
 
 	"golang.org/x/tools/go/ssa"
@@ -354,7 +355,7 @@ func (e *Engine) execCopy(st *State, args []Value, pos token.Pos) Value {
 func (e *Engine) applyContract(st *State, fc *contract.Func, f *ssa.Function, sig *types.Signature, args []Value, instr ssa.Instruction, pos token.Pos, name string) Value {
 	env := e.calleeEnv(st, fc, f, sig, args)
 	// ghost instantiation from "at call" annotations of the caller
-	ord := st.fr.callCount[name] - 1
+	ord := e.cur.callOrdinal(instr, name)
 	var ann *contract.Call
 	if e.cur.fc != nil && st.fr.parent == nil {
 		for _, c := range e.cur.fc.Calls {
@@ -385,6 +386,9 @@ func (e *Engine) applyContract(st *State, fc *contract.Func, f *ssa.Function, si
 		env.vars[gname] = gv
 	}
 	if ann != nil {
+		for _, u := range ann.Uses {
+			st.assume(e.evalBool(callerEnv, u))
+		}
 		for _, a := range ann.Asserts {
 			e.check(st, "assert", "at call "+name+" "+clauseLabel(a), a.Props, e.evalBool(callerEnv, a.Expr), pos)
 		}
@@ -409,9 +413,11 @@ func (e *Engine) applyContract(st *State, fc *contract.Func, f *ssa.Function, si
 	}
 	pre := st.clone()
 	env.old = pre
-	// havoc modifies
+	// havoc modifies: all targets are resolved in the pre-state, then forgotten
+	penv := *env
+	penv.st = pre
 	for _, m := range fc.Modifies {
-		e.havocTarget(st, env, m, true)
+		e.havocTargetIn(st, &penv, m)
 	}
 	env.st = st
 	if len(fc.Modifies) > 0 || !fc.Trusted {
@@ -456,4 +462,41 @@ func propsOr(p []string, d string) []string {
 		return []string{d}
 	}
 	return p
+}
+
+// callOrdinal numbers the call sites of one callee name in source order.
+func (c *verifyCtx) callOrdinal(instr ssa.Instruction, name string) int {
+	if c.callOrd == nil {
+		c.callOrd = map[ssa.Instruction]int{}
+		type site struct {
+			in  ssa.Instruction
+			pos token.Pos
+		}
+		byName := map[string][]site{}
+		for _, b := range c.fn.Blocks {
+			for _, in := range b.Instrs {
+				var cc *ssa.CallCommon
+				switch x := in.(type) {
+				case *ssa.Call:
+					cc = x.Common()
+				case *ssa.Defer:
+					cc = x.Common()
+				}
+				if cc != nil {
+					n := callName(cc)
+					byName[n] = append(byName[n], site{in, in.Pos()})
+				}
+			}
+		}
+		for _, ss := range byName {
+			sort.SliceStable(ss, func(i, j int) bool { return ss[i].pos < ss[j].pos })
+			for i, s := range ss {
+				c.callOrd[s.in] = i
+			}
+		}
+	}
+	if o, ok := c.callOrd[instr]; ok {
+		return o
+	}
+	return -2
 }
